@@ -1771,6 +1771,7 @@ func runC11(p *core.Prog, r *core.Result) {
 		"R11.8 a ref resolves against its closest tagged ancestor: in resolveRefQuery the walk over the revision's history (newest first) can be left - the yield function of the range over History() has a `return false` - and the assignment of the matching version is followed by leaving its loop with an exit that goes beyond the enclosing search; otherwise every older tagged ancestor overwrites the match, the pseudo-version is based on the oldest release, and an upgrade by ref lowers the project",
 		"R11.9 the queries that answer relative to the current version (patch, upgrade: the resolvers that are handed the build list) never answer below it: each compares its candidate with the current version through semver.Compare, and a candidate taken from the repository's version list is returned only on the edge where that comparison says it is greater - a project that sits on a pseudo-version ahead of the newest tag of its series would otherwise be 'upgraded' to that older tag, which get then carries out as a downgrade that lowers its dependents",
 		"R11.10 a resolution step that fails (listing versions, resolving or fetching a project) fails the requirement operation: in package internal/mvs no return on the failing edge of a fallible in-module call reports success (an upgrade that silently keeps the old version of a project whose versions could not be listed reports a build list that is not the upgraded one, and repeating it changes the requirements again)",
+		"R11.11 one project, one node: the configuration loader (also used for every dependency's file) stores each requirement back with its path passed through CleanPath (C10's R10.12) - with `x/e@v1` and `x/e` as two nodes a downgrade leaves the project selected twice and `get e@latest` adds a duplicate requirement",
 		"R11.7 the version lists and summaries that upgrade, downgrade and tidy consult come from resolver caches keyed by the whole of what the cached value was computed from (two major versions of one project path do not share an entry): an edit cannot be answered with another project's versions (rule shared with C10 R10.1)",
 	}
 	r.NotDecided = []string{"build-list equalities after tidy/upgrade/downgrade (algorithm in a dependency; behavioural)", "query resolution against tagged versions (ranges, latest, patch)"}
@@ -1783,6 +1784,7 @@ func runC11(p *core.Prog, r *core.Result) {
 	// ---- R11.9
 	checkRelativeQueriesNeverLower(p, r, "R11.9")
 	checkResolutionErrorsPropagated(p, r, "R11.10")
+	checkRequirementPathsNormalised(p, r, "R11.11")
 	// ---- R11.1
 	impls := 0
 	for _, fn := range p.ModuleFuncs() {
